@@ -127,7 +127,9 @@ Definition with_mode (m : meta) (mode : N) : meta :=
      m_uid := m_uid m; m_gid := m_gid m |}.
 
 Definition with_owner (m : meta) (uid gid : Z) : meta :=
-  {| m_mode := m_mode m; m_uid := uid; m_gid := gid |}.
+  {| m_mode := m_mode m;
+     m_uid := if Z.eqb uid (-1) then m_uid m else uid;
+     m_gid := if Z.eqb gid (-1) then m_gid m else gid |}.
 
 Definition set_meta (n : node) (m : meta) : node :=
   match n with
@@ -277,7 +279,7 @@ Definition delete_node (h : heap) (c : nat) : heap :=
 (* createDir / createFile / createSymlink: allocate at the end, link into parent *)
 Definition create_dir (s : fsys) (v : view) (parent : nat) (name : str) (perm : N) : fsys * nat :=
   let c := length (f_heap s) in
-  let h1 := f_heap s ++ [NDir [] (new_meta v (dir_mode (v_os v)) perm)] in
+  let h1 := f_heap s ++ [NDir [] (new_meta v (dir_mode (v_os v)) (N.land perm (511 + MODE_STICKY)))] in
   ({| f_heap := add_child h1 parent name c; f_last_id := f_last_id s; f_vols := f_vols s |}, c).
 
 Definition create_file (s : fsys) (v : view) (parent : nat) (name : str) (perm : N) : fsys * nat :=
@@ -338,7 +340,7 @@ Definition mkdir (s : fsys) (v : view) (name : str) (perm : N) : fsys * res :=
   match name with
   | [] => (s, RFail ENoSuchDir)
   | _ =>
-      let r := search_node s v name SlEval in
+      let r := search_node s v name SlLstat in
       if negb (is_not_exist (sr_err r)) || negb (pi_is_last (sr_pi r)) then (s, RFail (sr_err r))
       else match sr_parent r with
            | None => (s, RPanic)
@@ -413,7 +415,8 @@ Definition open_file (s : fsys) (v : view) (view_ix : nat) (name : str) (flag pe
             let at_ := if has om OpenAppend then Z.of_nat (length d1) else 0%Z in
             (with_heap s (upd h c (NFile d1 k i m)), inr (new_handle c view_ix name at_ om))
       | Some (NDir _ m) =>
-          if has om OpenWrite then (s, inl (RFail EIsADirectory))
+          if has om OpenCreateExcl then (s, inl (RFail EFileExists))
+          else if has om OpenWrite then (s, inl (RFail EIsADirectory))
           else if negb (check_permission m om (v_user v)) then (s, inl (RFail EPermDenied))
           else (s, inr (new_handle c view_ix name 0 om))
       | _ => (s, inr (new_handle c view_ix name 0 om))
@@ -598,6 +601,7 @@ Definition readlink (s : fsys) (v : view) (name : str) : res :=
 
 (* Truncate, memfs.go:949 *)
 Definition truncate (s : fsys) (v : view) (name : str) (size : Z) : fsys * res :=
+  if Z.ltb size 0 && negb (win v) then (s, RFail EInvalidArgument) else
   let r := search_node s v name SlEval in
   if negb (is_file_exists (sr_err r)) then (s, RFail (sr_err r))
   else match sr_child r with
@@ -677,7 +681,7 @@ Definition stat_gen (slm : slmode) (s : fsys) (v : view) (path : str) : res :=
   | Some c =>
       if negb (is_file_exists (sr_err r)) then RFail (sr_err r)
       else match get (f_heap s) c with
-           | Some n => RInfo (fill_stat n (pi_part (sr_pi r)))
+           | Some n => RInfo (fill_stat n (base (v_os v) path))
            | None => RPanic
            end
   end.
